@@ -907,6 +907,9 @@ impl Check for C02 {
             "activation-group 'highest' clause only judges higher-ranked members that were certainly eligible (enabled, inside the window, focus unambiguous, never blocked)".into(),
         ]
     }
+    fn devopt_scale(&self) -> Option<f64> {
+        Some(0.25)
+    }
     fn explore(&self, cli: &Cli, st: &mut Stats) {
         let grid = attribute_grid();
         let g = &grid;
